@@ -1,4 +1,5 @@
 import GrVerif.Proofs.PassBounds
+import GrVerif.Proofs.LoopBound2
 import GrVerif.Props.C07
 /-!
 # C02 — shaping any accepted font with any text is safe, terminating and bounded   (partial)
@@ -15,9 +16,20 @@ What the Lean side contributes (model: `Model/Pass.lean`, `Model/Action.lean`, `
 * **growth**: `insert_respects_budget` (the insert opcode dies once the pass's budget `maxSize` is used up) and
   `runRange_growth` (a range of passes that returns a segment did not let it outgrow 64 × the slots it started with:
   the post-pass `slotCount > maxSize` test).
-* **rule loop**: the model's rule loop counts its iterations exactly as the `GRAPHITE2_VERIF` hook of `Pass::runGraphite`
-  does; the two counters are compared on every synthesised font, and the bound `maxRuleLoop × (slots + insert budget + 2)`
-  is checked on the implementation's counter.  That the bound holds for *all* fonts is NOT a theorem here.
+* **rule loop** (`Proofs/LoopMeasure.lean`, `Proofs/LoopBound.lean`, `Proofs/LoopBound2.lean`): the do-loop of
+  `Pass::runGraphite` makes at most `maxRuleLoop × (slots + insertion budget + 2)` iterations, for every pass (state
+  machine, rules, constraint and action code), every stream and every text – `rule_loop_is_bounded`,
+  `pass_stays_within_loop_bound`, `pipeline_stays_within_loop_bound`.  The measure is the number of stream slots from the
+  high-water mark to the end of the stream plus what is left of the insertion budget; no opcode lets it grow
+  (`every_opcode_keeps_loop_measure`), and each reset of the loop counter moves the mark behind the cursor, which is the mark
+  or lies strictly behind it because `highpassed` is only ever set in that situation (the position invariant `HP`).
+  That invariant did NOT hold in the pinned tree: `delete_` steps the cursor back and left `highpassed` set when the step
+  landed on the mark; a rule `b c c > next; next; delete; return -k` then moves the mark backwards on every reset and the
+  loop count is quadratic in the text length (`fix: delete_ …` in /repo; the model's `Ctx.backOnto` is the repaired
+  behaviour).  The hypothesis `1 ≤ maxLoop` is what `Pass::readPass` enforces (`if (m_iMaxLoop < 1) m_iMaxLoop = 1`; the
+  driver applies the same clamp).  The model's loop counter is the `GRAPHITE2_VERIF` hook's counter; the two reports are
+  compared on every synthesised font, including fonts whose rules jump far back after deleting behind the mark.
+  The model's recursion fuel is provably never what ends a run (`fuel_is_never_the_reason`).
 
 Everything else in C02 (no out-of-bounds access, no undefined behaviour, no leak in the whole of `gr_make_seg`, positioning,
 collision fixing, queries and destruction) is decided on the implementation under ASan/UBSan/LSan with synthesised fonts,
@@ -44,6 +56,55 @@ theorem code_runs_each_instruction_once (i : Instr) (rest : List Instr) (s : St)
       | .inr e => e
       | .inl s' => if continues (s'.vm.sp - STACK_GUARD) then Action.runLoop rest s' else .normal s') := by
   rfl
+
+/-! ### the rule loop is bounded -/
+
+/-- every opcode keeps the invariant of a running action: the stream stays a stream, the measure (slots from the mark to the
+end of the stream + insertion budget left) stays below the bound `m` it had, and `highpassed` is only set while the cursor is
+strictly behind the mark -/
+theorem every_opcode_keeps_loop_measure (m : Nat) : OpsPreserve (QM m) := ops_QM m
+
+/-- a whole rule action, any instruction list: if the machine finishes normally the measure has not grown and the slot it
+hands back satisfies the position invariant -/
+theorem rule_action_does_not_grow_measure {is : List Instr} {dl : Bool} {mr : Nat} {data : List Nat} {ctx : Ctx} {l : List Nat}
+    (hl : Linked ctx.seg l) (hc : Clean ctx.seg l) (hh : HwOK ctx.highwater l)
+    (hcell : IsOK ctx.seg l (ctx.smap.getD ((ctx.context : Int) + 1).toNat none)) (ha : Alloc ctx.seg l)
+    {r : Int} {so : Option Nat} {c : Ctx} (e : doAction is dl mr data ctx = .ok (r, .finished, so, c)) :
+    ∃ l', JO c l' so ∧ meas c l' ≤ meas ctx l ∧ HP c l' so := doAction_meas hl hc hh hcell ha e
+
+/-- from any state with `highpassed` clear and the counter `lc` between 1 and `maxRuleLoop`, the loop ends within
+`(measure + 1) × maxRuleLoop + lc` iterations, or with an error raised inside a rule application -/
+theorem rule_loop_is_bounded (p : PassT) (hL : 1 ≤ p.maxLoop) (fuel : Nat) (c : Ctx) (s : Nat) (lc : Int) (it : Nat) {l : List Nat}
+    (h : JO c l (some s)) (hnp : c.highpassed = false) (h1 : 1 ≤ lc) (h2 : lc ≤ p.maxLoop) (hf : pot p c l lc ≤ fuel) :
+    LoopDone p (pot p c l lc) it (ruleLoop p fuel c s lc it) := ruleLoop_bound p hL fuel c s lc it h hnp h1 h2 hf
+
+/-- a pass over a well-formed stream: the loop report (the model's copy of the hook's report) does not say "exceeded" -/
+theorem pass_stays_within_loop_bound (p : PassT) (hL : 1 ≤ p.maxLoop) (c : Ctx) (fuel : Nat) (h : WF c.seg) {c' : Ctx}
+    (e : runPass p c fuel = .ok (some c')) : c'.vExceeded = c.vExceeded := runPass_within_bound p hL c fuel h e
+
+/-- **the whole pipeline, every font and every text**: no pass's rule loop exceeds `maxRuleLoop × (slots + insertion budget + 2)` -/
+theorem pipeline_stays_within_loop_bound (font : Font) (text : List Nat) (fuel : Nat) (hi : font.ipos ≤ font.passes.size)
+    (hL : ∀ k, k < font.passes.size → 1 ≤ (font.passes.getD k default).maxLoop) {c : Ctx} {ci : List Assoc.CI}
+    (e : shape font text fuel = .ok (some (c, ci))) : c.vExceeded = false := shape_within_bound font text fuel hi hL e
+
+/-- the fuel of the model's recursion never ends a run -/
+theorem fuel_is_never_the_reason (font : Font) (text : List Nat) (fuel : Nat) (hi : font.ipos ≤ font.passes.size)
+    (hL : ∀ k, k < font.passes.size → 1 ≤ (font.passes.getD k default).maxLoop) {w : String} (e : shape font text fuel = .error w) :
+    (∃ p c s, findNDoRule p c s = .error w) ∨ w = "associateChars: char-info access out of range" := shape_error font text fuel hi hL e
+
+/-! non-vacuity: the rule `b c c > next; next; delete; return -4` (the shape of the defect's witness) on `aaaaab cccccccc`:
+one deletion, 13 iterations against a bound of 912, not exceeded -/
+def jumpPass (k : Nat) : PassT := { maxLoop := 1, minPre := 0, maxPre := 0, numColumns := 3, numTransition := 3, numStates := 4, numSuccess := 1, cols := #[0xFFFF, 0, 1, 2], starts := #[0], trans := #[#[0, 1, 0], #[0, 0, 2], #[0, 0, 3]], ruleMap := #[[0]], rules := #[{ sort := 3, pre := 0, constraint := [], action := [25, 25, 32, 1, 256 - k, 48] }] }
+def jumpFont (k : Nat) : Font := { passes := #[jumpPass k], ipos := 1, classes := #[], gattr := #[], gadv := #[], cmap := id }
+def loopReport (r : Except String (Option (Ctx × List Assoc.CI))) : Nat × Nat × Bool × Int :=
+  match r with
+  | .ok (some r) => (r.1.vIter, r.1.vBound, r.1.vExceeded, r.1.seg.numGlyphs)
+  | _ => (0, 0, true, -1)
+example : loopReport (shape (jumpFont 4) ([1, 1, 1, 1, 1, 2] ++ List.replicate 8 3) 10) = (13, 912, false, 13) := by decide +kernel
+example : (jumpFont 4).ipos ≤ (jumpFont 4).passes.size ∧ ∀ k, k < (jumpFont 4).passes.size → 1 ≤ ((jumpFont 4).passes.getD k default).maxLoop := by
+  refine ⟨by decide, fun k hk => ?_⟩
+  have : k = 0 := by simp [jumpFont] at hk; omega
+  subst this; decide
 
 /-! ### non-vacuity: a looping state machine (a+ b) on 100 a's stops at the slot-map limit -/
 def loopPass : PassT :=
